@@ -122,6 +122,7 @@ func runC04(ctx *Ctx) {
 		contentCorrespondence(ctx, docs, "generated documents and the fixture files")
 	}
 	c04TemplateFiles(ctx, r.Fork())
+	c04MacroChildren(ctx, r.Fork())
 	n := ctx.Budget(1500, 100000)
 	rejected := 0
 	for i := 0; i < n; i++ {
@@ -271,4 +272,128 @@ func c04TemplateFiles(ctx *Ctx, r *Rng) {
 		_ = js
 	}
 	ctx.Cov.Component("projects of files written from one template (same byte offsets in different files): catalog = catalog of the one-file text, every interaction carries its own file's schemas", cases, len(ctx.Violations), "")
+}
+
+// c04MacroChildren: macros whose bodies are CHILDREN of a method — responses with the body in place, responses with
+// Body / Headers children, a Request, a Query — pasted once, twice or three times into one method, directly and
+// through another macro: the catalog is the catalog of the document with every PASTE written out by hand (the
+// copies of a macro's directives keep the coordinates of the macro's text; nothing may depend on them).
+func c04MacroChildren(ctx *Ctx, r *Rng) {
+	pieces := []string{
+		"404 @error // Not found.\n", "404\n  Body @error\n", "404\n  Headers\n  {\"h\": 1}\n  Body any\n", "500 any\n", "401\n  Body\n  {\"m\": 1}\n",
+		"404\n  Headers\n  {\"h\": 2}\n", "200 @error\n",
+	}
+	singles := []string{"Query\n{\"q\": 1}\n", "Request\n  Body any\n", "Description\n(\n  text\n)\n"}
+	indent := func(s, ind string) string {
+		var b strings.Builder
+		for _, l := range strings.SplitAfter(s, "\n") {
+			if l != "" {
+				b.WriteString(ind + l)
+			}
+		}
+		return b.String()
+	}
+	n := ctx.Budget(200, 8000)
+	cases, twice := 0, 0
+	for i := 0; i < n && len(ctx.Violations) < 10; i++ {
+		nm := 1 + r.Intn(3)
+		// macro k: a list of items, an item is a piece or the paste of a macro with a smaller number
+		type item struct {
+			text  string
+			paste int
+		}
+		macros := make([][]item, nm)
+		for k := range macros {
+			for j := 0; j < 1+r.Intn(2); j++ {
+				if k > 0 && r.Chance(1, 3) {
+					macros[k] = append(macros[k], item{paste: r.Intn(k) + 1})
+				} else if r.Chance(1, 8) {
+					macros[k] = append(macros[k], item{text: singles[r.Intn(len(singles))]})
+				} else {
+					macros[k] = append(macros[k], item{text: pieces[r.Intn(len(pieces))]})
+				}
+			}
+		}
+		var expand func(k int) string
+		expand = func(k int) string {
+			var b strings.Builder
+			for _, it := range macros[k] {
+				if it.paste > 0 {
+					b.WriteString(expand(it.paste - 1))
+				} else {
+					b.WriteString(it.text)
+				}
+			}
+			return b.String()
+		}
+		var docM, docI strings.Builder
+		head := "JSIGHT 0.3\nTYPE @error\n{\"message\": \"abc\"}\n"
+		docM.WriteString(head)
+		docI.WriteString(head)
+		maxSame := 0
+		for mi, meth := range []string{"DELETE /cats/{id}", "GET /cats", "URL /dogs\n  POST"}[:1+r.Intn(3)] {
+			ind := "  "
+			if strings.HasPrefix(meth, "URL") {
+				ind = "    "
+			}
+			docM.WriteString(meth + "\n")
+			docI.WriteString(meth + "\n")
+			if r.Bool() {
+				docM.WriteString(ind + "204 empty\n")
+				docI.WriteString(ind + "204 empty\n")
+			}
+			used := map[int]int{}
+			for j := 0; j < 1+r.Intn(3); j++ {
+				k := r.Intn(nm)
+				used[k]++
+				if used[k] > maxSame {
+					maxSame = used[k]
+				}
+				docM.WriteString(fmt.Sprintf("%sPASTE @m%d\n", ind, k))
+				docI.WriteString(indent(expand(k), ind))
+			}
+			_ = mi
+		}
+		for k := range macros {
+			docM.WriteString(fmt.Sprintf("MACRO @m%d\n", k))
+			for _, it := range macros[k] {
+				if it.paste > 0 {
+					docM.WriteString(fmt.Sprintf("  PASTE @m%d\n", it.paste-1))
+				} else {
+					docM.WriteString(indent(it.text, "  "))
+				}
+			}
+		}
+		rm := RunProject(SingleFile([]byte(docM.String())), false)
+		ri := RunProject(SingleFile([]byte(docI.String())), false)
+		cases++
+		ctx.Cov.Count([]byte(docM.String()), maxSame >= 2)
+		if rm.Panic != "" || ri.Panic != "" {
+			continue
+		}
+		if maxSame >= 2 {
+			twice++
+			ctx.Cov.Hit("macro of method children pasted twice or more into one method")
+		}
+		if ri.Accepted() {
+			ctx.Cov.Hit("macro children: hand-inlined document accepted")
+		} else {
+			ctx.Cov.Hit("macro children: hand-inlined document rejected")
+		}
+		in := projectInput(SingleFile([]byte(docM.String())))
+		in["op"] = "inline"
+		in["inlined"] = docI.String()
+		switch {
+		case ri.Accepted() && !rm.Accepted():
+			ctx.Violate(Violation{Kind: "wrong-output", Site: "macros", What: "the document with every PASTE written out by hand is accepted, the document with the macros is rejected: " + rm.Verdict(), Input: in,
+				Observed: rm.Verdict(), Expected: "accepted", Signature: "macro-children-rejected"})
+		case !ri.Accepted() && rm.Accepted():
+			ctx.Violate(Violation{Kind: "wrong-output", Site: "macros", What: "the document with the macros is accepted, the same document with every PASTE written out by hand is rejected: " + ri.Verdict(), Input: in,
+				Observed: "accepted", Expected: ri.Verdict(), Signature: "macro-children-accepted"})
+		case ri.Accepted() && !bytes.Equal(rm.JSON, ri.JSON):
+			ctx.Violate(Violation{Kind: "wrong-output", Site: "macros", What: "the document with macros of method children and the document with every PASTE written out by hand have different catalogs: " + firstDiff(ri.JSON, rm.JSON), Input: in,
+				Signature: "macro-children-catalog"})
+		}
+	}
+	ctx.Cov.Component("macros of method children (responses with body in place / Body / Headers children, Request, Query) pasted 1-3 times into one method, directly and through macros, vs the hand-inlined document", cases, len(ctx.Violations), fmt.Sprintf("%d documents paste one macro twice or more into one method", twice))
 }
